@@ -1,9 +1,11 @@
 // Session harness for the disk-backed scorch properties (one binary, -mode selects the property):
-//   c03  crash injection: a child process is killed (os.Exit) at the n-th occurrence of a hook point
-//   c13  rollback: clean sessions, then Rollback to one of the listed rollback points, reopen, write on
-//   c14  online backup: CopyTo runs while the index is written, merged and purged; the copy is opened
-//   c12  file life-cycle: a sampler lists the directory during the run, at quiescence and checks
-//        open file descriptors after Close; a held reader's files are checked for existence
+//
+//	c03  crash injection: a child process is killed (os.Exit) at the n-th occurrence of a hook point
+//	c13  rollback: clean sessions, then Rollback to one of the listed rollback points, reopen, write on
+//	c14  online backup: CopyTo runs while the index is written, merged and purged; the copy is opened
+//	c12  file life-cycle: a sampler lists the directory during the run, at quiescence and checks
+//	     open file descriptors after Close; a held reader's files are checked for existence
+//
 // In every mode a child process (this same binary, VH_CHILD set) runs the workload on a real index
 // and streams every hook event plus its own notes to the parent; the multi-session stream goes to
 // the Coq persistence model (Scorch/Disk.v), which must accept it event by event.
@@ -13,6 +15,7 @@ import (
 	"bufio"
 	"encoding/json"
 	"fmt"
+	"io"
 	"os"
 	"os/exec"
 	"path/filepath"
@@ -170,14 +173,14 @@ func gen(f vh.Flags, r *vrand.R, emit func(In)) {
 			nc := r.Range(1, 3)
 			for c := 0; c < nc; c++ {
 				pos := r.Intn(len(as) + 1)
-				as = append(as[:pos], append([]Action{{Kind: "copy", Dest: fmt.Sprintf("copy%d", c)}}, as[pos:]...)...)
+				as = append(as[:pos], append([]Action{{Kind: "copy", Dest: fmt.Sprintf("copy%d", c), US: vrand.Pick(r, []int{0, 2000, 8000, 20000})}}, as[pos:]...)...)
 			}
 			as = append(as, Action{Kind: "sleep", US: 10000})
 			in.Sessions = []Session{{Actions: as}, {}}
 			emit(in)
 		}
 	case "c12":
-		n := f.N(12, 400)
+		n := f.N(18, 400)
 		for k := 0; k < n; k++ {
 			nids := r.Range(3, 6)
 			var ver int64
@@ -187,9 +190,13 @@ func gen(f vh.Flags, r *vrand.R, emit func(In)) {
 				pos := r.Intn(len(as) + 1)
 				as = append(as[:pos], append([]Action{{Kind: "hold", US: r.Range(2000, 30000)}}, as[pos:]...)...)
 			}
-			if r.Chance(1, 2) {
-				pos := r.Intn(len(as) + 1)
-				as = append(as[:pos], append([]Action{{Kind: "copy", Dest: "copy0"}}, as[pos:]...)...)
+			nc := r.Range(0, 1)
+			if k%2 == 0 {
+				nc = 2 // two overlapping backups straddling persists and purges
+			}
+			for c := nc; c > 0; c-- {
+				pos := r.Intn(len(as)/2 + 1)
+				as = append(as[:pos], append([]Action{{Kind: "copy", Dest: fmt.Sprintf("copy%d", c), US: vrand.Pick(r, []int{2000, 8000, 20000})}}, as[pos:]...)...)
 			}
 			as = append(as, Action{Kind: "settle"})
 			in.Sessions = []Session{{Actions: as, Sampler: true, FdCheck: true}, {}}
@@ -234,6 +241,7 @@ func childMain(specJSON string) {
 		lastEvent = time.Now()
 	}
 	armed := false
+	var copyWaiters []chan struct{}
 	mappingPersisted := make(chan struct{})
 	var once sync.Once
 	count := 0
@@ -243,6 +251,10 @@ func childMain(specJSON string) {
 		emit(ev)
 		if ev.Kind == "point" && ev.Name == "persist_synced" {
 			once.Do(func() { close(mappingPersisted) })
+		}
+		if ev.Kind == "copy_start" && len(copyWaiters) > 0 {
+			close(copyWaiters[0])
+			copyWaiters = copyWaiters[1:]
 		}
 		if !armed || spec.Session.Crash == nil {
 			return
@@ -374,16 +386,26 @@ func childMain(specJSON string) {
 		case "sleep":
 			time.Sleep(time.Duration(a.US) * time.Microsecond)
 		case "copy":
-			bg.Wait() // one copy at a time (so copy_start events and destinations pair up in order)
+			// copies may overlap; only their STARTS are serialised (the next action waits for this
+			// copy's copy_start event), so that copy_start events and destinations pair up in order
 			bg.Add(1)
 			dest := filepath.Join(filepath.Dir(spec.Path), a.Dest)
+			started := make(chan struct{})
+			mu.Lock()
+			copyWaiters = append(copyWaiters, started)
+			mu.Unlock()
+			us := a.US
 			go func() {
 				defer bg.Done()
-				if err := idx.(bleve.IndexCopyable).CopyTo(bleve.FileSystemDirectory(dest)); err != nil {
+				if err := idx.(bleve.IndexCopyable).CopyTo(slowDir{bleve.FileSystemDirectory(dest), us}); err != nil {
 					fmt.Fprintln(os.Stderr, "child: CopyTo:", err)
 					os.Exit(11)
 				}
 			}()
+			select {
+			case <-started:
+			case <-time.After(10 * time.Second):
+			}
 		case "hold":
 			// hold an index reader for a while and check that the files of its snapshot stay on disk
 			bg.Add(1)
@@ -471,6 +493,20 @@ func childMain(specJSON string) {
 		note(sw.Note("fds_open_after_close", uint64(open)))
 	}
 	os.Exit(0)
+}
+
+// slowDir makes an online copy take a while (a pause before every file it writes), so that
+// persists, merges, purges and other copies really overlap with it.
+type slowDir struct {
+	bleve.FileSystemDirectory
+	us int
+}
+
+func (d slowDir) GetWriter(filePath string) (io.WriteCloser, error) {
+	if d.us > 0 {
+		time.Sleep(time.Duration(d.us) * time.Microsecond)
+	}
+	return d.FileSystemDirectory.GetWriter(filePath)
 }
 
 // ---------------------------------------------------------------- parent
